@@ -305,6 +305,12 @@ def keymap_cfgs(info_preserving=True):
                             continue
                         out.append({'cls': cls, 'type': t, 'flat': flat, 'typed': typed,
                                     'sentinel': sentinel})
+    # serializer options handed through the keymap (they change the key bytes)
+    for typed in (False, True):
+        out.append({'cls': 'picklemap', 'type': 'dill', 'flat': True, 'typed': typed, 'sentinel': True,
+                    'kw': {'protocol': 2}})
+    out.append({'cls': 'picklemap', 'type': 'dill', 'flat': False, 'typed': False, 'sentinel': False,
+                'kw': {'protocol': 3}})
     return out
 
 
@@ -320,6 +326,7 @@ def build_keymap(klepto, km):
         kw['serializer'] = km['type']
     if km['cls'] == 'hashmap' and km['type'] is not None:
         kw['algorithm'] = km['type']
+    kw.update(km.get('kw') or {})
     return cls(**kw)
 
 
